@@ -86,17 +86,20 @@ fn conversion_error(input: usize, expected: &str, actual: &str) -> ExecutionErro
 }
 
 // The arguments stay on the stack while the function runs: it may allocate, and therefore collect,
-// and the stack is what keeps its arguments alive.
+// and the stack is what keeps its arguments alive. They are consumed whether the call succeeds,
+// fails, or is rejected because an argument does not convert.
 
 impl<Aux, T1> VmFunction<Aux> for VmFunction1<Aux, T1>
 where
     T1: TryFrom<Value>,
 {
     fn call(&self, vm: &mut Vm<Aux>) -> ShallowExecutionResult {
-        let v1 = vm.runtime_data.value_stack.peek_last(0);
-        let v1 =
-            T1::try_from(v1).map_err(|_| conversion_error(1, type_name::<T1>(), v1.type_name()))?;
-        let res = self(vm, v1);
+        let res = (|| {
+            let v1 = vm.runtime_data.value_stack.peek_last(0);
+            let v1 = T1::try_from(v1)
+                .map_err(|_| conversion_error(1, type_name::<T1>(), v1.type_name()))?;
+            self(vm, v1)
+        })();
         vm.runtime_data.value_stack.pop_n::<1>();
         res
     }
@@ -108,13 +111,15 @@ where
     T2: TryFrom<Value>,
 {
     fn call(&self, vm: &mut Vm<Aux>) -> ShallowExecutionResult {
-        let v2 = vm.runtime_data.value_stack.peek_last(0);
-        let v2 =
-            T2::try_from(v2).map_err(|_| conversion_error(2, type_name::<T2>(), v2.type_name()))?;
-        let v1 = vm.runtime_data.value_stack.peek_last(1);
-        let v1 =
-            T1::try_from(v1).map_err(|_| conversion_error(1, type_name::<T1>(), v1.type_name()))?;
-        let res = self(vm, v1, v2);
+        let res = (|| {
+            let v2 = vm.runtime_data.value_stack.peek_last(0);
+            let v2 = T2::try_from(v2)
+                .map_err(|_| conversion_error(2, type_name::<T2>(), v2.type_name()))?;
+            let v1 = vm.runtime_data.value_stack.peek_last(1);
+            let v1 = T1::try_from(v1)
+                .map_err(|_| conversion_error(1, type_name::<T1>(), v1.type_name()))?;
+            self(vm, v1, v2)
+        })();
         vm.runtime_data.value_stack.pop_n::<2>();
         res
     }
@@ -127,16 +132,18 @@ where
     T3: TryFrom<Value>,
 {
     fn call(&self, vm: &mut Vm<Aux>) -> ShallowExecutionResult {
-        let v3 = vm.runtime_data.value_stack.peek_last(0);
-        let v3 =
-            T3::try_from(v3).map_err(|_| conversion_error(3, type_name::<T3>(), v3.type_name()))?;
-        let v2 = vm.runtime_data.value_stack.peek_last(1);
-        let v2 =
-            T2::try_from(v2).map_err(|_| conversion_error(2, type_name::<T2>(), v2.type_name()))?;
-        let v1 = vm.runtime_data.value_stack.peek_last(2);
-        let v1 =
-            T1::try_from(v1).map_err(|_| conversion_error(1, type_name::<T1>(), v1.type_name()))?;
-        let res = self(vm, v1, v2, v3);
+        let res = (|| {
+            let v3 = vm.runtime_data.value_stack.peek_last(0);
+            let v3 = T3::try_from(v3)
+                .map_err(|_| conversion_error(3, type_name::<T3>(), v3.type_name()))?;
+            let v2 = vm.runtime_data.value_stack.peek_last(1);
+            let v2 = T2::try_from(v2)
+                .map_err(|_| conversion_error(2, type_name::<T2>(), v2.type_name()))?;
+            let v1 = vm.runtime_data.value_stack.peek_last(2);
+            let v1 = T1::try_from(v1)
+                .map_err(|_| conversion_error(1, type_name::<T1>(), v1.type_name()))?;
+            self(vm, v1, v2, v3)
+        })();
         vm.runtime_data.value_stack.pop_n::<3>();
         res
     }
@@ -151,19 +158,21 @@ where
     T4: TryFrom<Value>,
 {
     fn call(&self, vm: &mut Vm<Aux>) -> ShallowExecutionResult {
-        let v4 = vm.runtime_data.value_stack.peek_last(0);
-        let v4 =
-            T4::try_from(v4).map_err(|_| conversion_error(4, type_name::<T4>(), v4.type_name()))?;
-        let v3 = vm.runtime_data.value_stack.peek_last(1);
-        let v3 =
-            T3::try_from(v3).map_err(|_| conversion_error(3, type_name::<T3>(), v3.type_name()))?;
-        let v2 = vm.runtime_data.value_stack.peek_last(2);
-        let v2 =
-            T2::try_from(v2).map_err(|_| conversion_error(2, type_name::<T2>(), v2.type_name()))?;
-        let v1 = vm.runtime_data.value_stack.peek_last(3);
-        let v1 =
-            T1::try_from(v1).map_err(|_| conversion_error(1, type_name::<T1>(), v1.type_name()))?;
-        let res = self(vm, v1, v2, v3, v4);
+        let res = (|| {
+            let v4 = vm.runtime_data.value_stack.peek_last(0);
+            let v4 = T4::try_from(v4)
+                .map_err(|_| conversion_error(4, type_name::<T4>(), v4.type_name()))?;
+            let v3 = vm.runtime_data.value_stack.peek_last(1);
+            let v3 = T3::try_from(v3)
+                .map_err(|_| conversion_error(3, type_name::<T3>(), v3.type_name()))?;
+            let v2 = vm.runtime_data.value_stack.peek_last(2);
+            let v2 = T2::try_from(v2)
+                .map_err(|_| conversion_error(2, type_name::<T2>(), v2.type_name()))?;
+            let v1 = vm.runtime_data.value_stack.peek_last(3);
+            let v1 = T1::try_from(v1)
+                .map_err(|_| conversion_error(1, type_name::<T1>(), v1.type_name()))?;
+            self(vm, v1, v2, v3, v4)
+        })();
         vm.runtime_data.value_stack.pop_n::<4>();
         res
     }
